@@ -36,6 +36,9 @@ type Unit struct {
 	Sig func() string
 	// Describe returns a human-readable sample of the execution that just ran. Optional.
 	Describe func() any
+	// IsolatedOnly units are never explored in-process: they exist to be run by
+	// name in a memory-limited sub-process (see checks.RunIsolated).
+	IsolatedOnly bool
 }
 
 // Violation is one violating execution.
@@ -136,7 +139,13 @@ func (r *Runner) harnessErr(format string, a ...any) {
 }
 
 // Explore runs every unit under iterative bounding 0..max(Bound).
-func (r *Runner) Explore(units []*Unit) {
+func (r *Runner) Explore(all []*Unit) {
+	var units []*Unit
+	for _, u := range all {
+		if !u.IsolatedOnly {
+			units = append(units, u)
+		}
+	}
 	r.Stats.Units += len(units)
 	maxB := 0
 	for _, u := range units {
